@@ -559,6 +559,19 @@ func lookupModel(fn *ssa.Function) (modelFn, bool) {
 			return m(e, st, args, call, pos)
 		}, true
 	}
+	if strings.HasPrefix(name, "slices.overlaps[") {
+		// the real function compares addresses through uintptr; here: same object and intersecting element ranges
+		return func(e *Engine, st *State, args []Value, call *ssa.Call, pos token.Pos) Value {
+			a, b := args[0].(SliceV), args[1].(SliceV)
+			if a.obj == 0 || b.obj == 0 || a.obj != b.obj {
+				return Bool(false)
+			}
+			nonEmpty := And(Not(Eq(a.ln, BV(64, 0))), Not(Eq(b.ln, BV(64, 0))))
+			aEnd := Bin("bvadd", a.off, a.ln)
+			bEnd := Bin("bvadd", b.off, b.ln)
+			return And(nonEmpty, And(Cmp("bvult", a.off, bEnd), Cmp("bvult", b.off, aEnd)))
+		}, true
+	}
 	if strings.HasPrefix(name, "unique.Make[") {
 		modelsUsed["unique.Make"]++
 		return uniqueMake, true
